@@ -48,6 +48,22 @@ check('C06', 'exploration',
       'deterministic simulation (seeded operation histories vs executable reference model, minimised replay); empty fault space',
       'DESIGN.md 5.6')
 
+check('C20', 'fault_enumeration',
+      'Every job is a simulated process lifetime running the real plasTeX.client.main path over an interposed '
+      'real directory. Seeded sequences of RUN / RUN+crash / CORRUPT / EDIT across 2-3 documents and 2 renderers '
+      'are checked op by op against a reference model of what each .paux may hold (never blocks, round trip, per '
+      'renderer, at worst absent, heals) and end with a bounded-recovery check; on top, dense enumeration per '
+      'sampled workload: every SimFS event of the .paux window x tear offsets (crash between truncate and write, '
+      'mid-write at byte offsets, before close), every truncation point, single-bit flips, zero tails and seeded '
+      'multi-bit flips of a saved file through the three readers (Context.restore, xr, Context.persist).',
+      'Trusted: the .paux content model in sim/props/c20.py; SimFS flushes what was written before the kill, so a '
+      'crash leaves old content, new content or a strict prefix (power-loss reordering below write() is not '
+      'modelled; plasTeX never fsyncs). After bit flips / zero tails only "never blocks" and "heals" are asserted '
+      '(no checksum in the format). xr is exercised only with HTML5/XHTML (Text/ManPage cannot render xr dict labels '
+      'even fault-free). Dense sweeps are exhaustive per sampled file in thorough, strided in quick.',
+      'deterministic simulation with fault injection: fork-per-lifetime, SimFS crash/tear injection, idle corruption, reference model, ddmin replay',
+      'DESIGN.md 5.1')
+
 NA = [
  ('C01', 'pure function of (text, catcode table): no schedule, clock, fault or history in the statement; would need a second lexer as oracle (differential testing, another family)'),
  ('C02', 'pure function of the macro program; oracle would be an independent TeX expander (differential testing)'),
